@@ -71,7 +71,10 @@ class C09(Base):
             k = rng.choice((0, 1, 1, 2, 2, 3, 4))
             if perm == 0 and rng.random() < 0.5:
                 k = 0
-            slots.append((cfg, k, "every" if rng.random() < 0.7 else "first"))
+            style = "every" if rng.random() < 0.7 else "first"
+            if rng.random() < 0.35:
+                style += "+for"
+            slots.append((cfg, k, style))
         faults = {"obs": rng.choice((0.15, 0.3, 0.5)), "obs_before": 0.7}
         return Plan(slots, faults=faults, interleave=nslots > 1, overrun=3,
                     conclude_obs=2)
